@@ -376,7 +376,10 @@ class ExprMixin:
             return False
         from .values import SymDict
         if isinstance(container, Ref) and isinstance(st.deref(container), SymDict) and is_int(item):
-            return z3.Select(st.deref(container).present, int_term(item))
+            d = st.deref(container)
+            idx = z3.simplify(int_term(item) + d.shift)
+            st.add_index(idx)       # quantified facts about the dict are instantiated where it is read
+            return z3.Select(d.present, idx)
         if self.abstract() and self._opaque(container, st):
             return st.nd_bool(f"in@{st.deref(container).kind if isinstance(container, Ref) else 'seq'}")
         if isinstance(container, Ref):
@@ -691,9 +694,10 @@ class ExprMixin:
             b = T.py_bound(None if hi is None else int_term(hi), v.n, v.n)
             if lo is None:
                 return AbsSeq(z3.If(b > 0, b, 0), v.elem)           # a prefix keeps its elements
+            off = a if v.offset is None else v.offset + a
             if v.elem is not None:
-                return AbsSeq(z3.If(b > a, b - a, 0), lambda k, a=a, e=v.elem: e(a + k))
-            return AbsSeq(z3.If(b > a, b - a, 0))
+                return AbsSeq(z3.If(b > a, b - a, 0), lambda k, a=a, e=v.elem: e(a + k), offset=off)
+            return AbsSeq(z3.If(b > a, b - a, 0), offset=off)
         if isinstance(v, Sym) and v.tag == "line" and lo is None and hi is not None:
             w = int_term(hi)
             st.fact(T.line_facts(v.t, w))
@@ -865,7 +869,8 @@ class ExprMixin:
                 raise Unsupported("symbolic key store")
             from .values import SymDict
             if isinstance(o, SymDict):
-                k = int_term(self.ev(slice_node, st))
+                k = z3.simplify(int_term(self.ev(slice_node, st)) + o.shift)
+                st.add_index(k)
                 if v is None:
                     vt = z3.IntVal(-1)
                 elif isinstance(v, Sym) and v.tag in ("line", "optline"):
